@@ -7,7 +7,8 @@
 
 Classes: a structured (grammar-built responses, every delivery mode)   b limits (hard limit 16..64)
          c callback scripts   d gaps   e malformed (random bytes, bit flips)   r request+response (in order)
-         x request+response random merges
+         x request+response random merges   s special corners (limits of folded length / repetitions / integers,
+         data before open / after close / after errors, empty calls)
 Named exclusion flags (all False = excluded by default; the MODEL still has to agree when they are switched on,
 unless the library crashes):
   f1           allow chunk boundaries that make the LF-CR heuristic of RES_HEADERS fire in the split run only:
@@ -508,16 +509,70 @@ def gen_reqres_merge(rng, n, flags):
     return out[:n]
 
 
-CLASSES = {"x": gen_reqres_merge, "a": gen_structured, "b": gen_limits, "c": gen_callbacks, "d": gen_gaps, "e": gen_malformed, "r": gen_reqres}
+def gen_special(rng, n, flags):
+    """corners the grammar classes reach rarely: folded header longer than HTP_MAX_HEADER_FOLDED, more than
+    HTP_MAX_HEADERS_REPETITIONS repetitions, Content-Length / chunk sizes at the integer boundaries, data before open,
+    after close and after errors, empty data calls, zero gaps"""
+    out = []
+    fixed = []
+    # 1. folded header growing past HTP_MAX_HEADER_FOLDED (102400), hard limit raised; delivered in pieces < 1 KiB
+    for total, hard in ((104000, 400000), (30000, 18000), (17000, 18000)):
+        st = b"HTTP/1.1 200 OK\r\nX-Long: start\r\n"
+        while len(st) < total:
+            st += b" " + b"f" * 700 + b"\r\n"
+        st += b"Next: 1\r\n\r\n"
+        cuts = list(range(900, len(st), 900))
+        fixed.append(mkcase(["O"] + ops_for(st, cuts) + ["C"], mkcfg(hard=hard)))
+    # 2. repetitions beyond the cap
+    for k in (3, 64, 65, 66, 67, 70):
+        st = b"HTTP/1.1 200 OK\r\n" + b"A: 1\r\n" * k + b"a: last\r\nContent-Length: 1\r\ncontent-length: 1\r\n" * 2 + b"\r\nxy"
+        fixed.append(mkcase(["O", "S" + hx(st), "C"]))
+    # 3. integer boundaries
+    for v in (b"9223372036854775807", b"9223372036854775808", b"922337203685477580", b"18446744073709551616", b"2147483648", b"4294967296"):
+        st = b"HTTP/1.1 200 OK\r\nContent-Length: " + v + b"\r\n\r\nsome body bytes"
+        fixed.append(mkcase(["O", "S" + hx(st), "s7", "S" + hx(b"more"), "C"]))
+    for v in (b"7fffffff", b"80000000", b"7FFFFFFF", b"0000000000000000007fffffff", b"100000000", b"ffffffffffffffff", b"7ffffffff"):
+        st = b"HTTP/1.1 200 OK\r\nTransfer-Encoding: chunked\r\n\r\n" + v + b"\r\nsome chunk bytes\r\n0\r\n\r\n"
+        fixed.append(mkcase(["O", "S" + hx(st), "S" + hx(b"more"), "C"]))
+        fixed.append(mkcase(["O"] + ops_for(st, [50, 53, 60]) + ["C"]))
+    out += fixed
+    ok = b"HTTP/1.1 200 OK\r\nContent-Length: 2\r\n\r\nok"
+    while len(out) < n:
+        stream = b"".join(response(rng, rng.random() < 0.5) for _ in range(rng.choice([1, 2])))
+        cuts = rng.sample(range(1, len(stream)), min(len(stream) - 1, rng.randint(0, 4))) if len(stream) > 1 else []
+        body = ops_for(stream, cuts)
+        r = rng.random()
+        if r < 0.15:
+            ops = body + ["O"] + body + ["C"]                       # data before open
+        elif r < 0.3:
+            ops = ["O"] + body + ["C"] + body + ["C", "C"]          # data after close, double close
+        elif r < 0.45:
+            ops = ["O"]
+            for b in body:
+                ops += [b, rng.choice(["S", "s0", "S", "F"])]        # empty data calls
+            ops += ["C"]
+        elif r < 0.6:
+            ops = ["O", "S" + hx(b"HTTP/1.1 200 OK\r\nContent-Length: x\r\n\r\n")] + body + ["C"]     # after an ERROR
+        elif r < 0.75:
+            ops = ["O", "C", "O"] + body + ["C"]
+        elif r < 0.9:
+            ops = ["O", "S" + hx(ok)] + body + ["D0", "F", "S" + hx(ok), "D1", "F", "F", "S" + hx(ok), "C"]
+        else:
+            ops = ["O"] + body + ["c"] + body + ["C"]
+        out.append(mkcase(ops, rnd_cfg(rng, True)))
+    return out[:max(n, len(fixed))]
+
+
+CLASSES = {"s": gen_special, "x": gen_reqres_merge, "a": gen_structured, "b": gen_limits, "c": gen_callbacks, "d": gen_gaps, "e": gen_malformed, "r": gen_reqres}
 
 
 def gen_cases(rng, tier="quick", flags=None, with_requests=False, classes=None, total=None):
     fl = dict(DEFAULT_FLAGS)
     fl.update(flags or {})
     total = total or (6000 if tier == "quick" else 60000)
-    share = {"a": 0.40, "b": 0.15, "c": 0.15, "d": 0.10, "e": 0.20}
+    share = {"a": 0.38, "b": 0.15, "c": 0.15, "d": 0.10, "e": 0.17, "s": 0.05}
     if with_requests:
-        share = {"a": 0.25, "b": 0.10, "c": 0.10, "d": 0.10, "e": 0.15, "r": 0.15, "x": 0.15}
+        share = {"a": 0.22, "b": 0.10, "c": 0.10, "d": 0.08, "e": 0.15, "r": 0.15, "x": 0.15, "s": 0.05}
     if classes:
         share = {k: 1.0 / len(classes) for k in classes}
     out = []
